@@ -117,7 +117,9 @@ func gv12(w *World, r *Report) {
 		ok := false
 		for _, b := range ivt.Blocks {
 			if ret, isR := lastInstr(b).(*ssa.Return); isR {
-				ok = w.Canon(ret.Results[0]) == "recv.GovProposalHeader.Voters[p0.String()]#1"
+				// however the lookup is packaged: a helper of the header, the key built by a helper
+				c := w.CanonDeep(ret.Results[0])
+				ok = c == "recv.GovProposalHeader.Voters[p0.String()]#1" || c == "recv.GovProposalHeader.Voters[strings.ToUpper(hex.EncodeToString(p0))]#1"
 			}
 		}
 		r.Check(ok, "Gv-2", "IsVoter", "membership in the proposal's recorded voters", "IsVoter is not membership in the recorded voters", fnSite(w, ivt))
@@ -195,7 +197,7 @@ func gv3(w *World, r *Report) {
 		// the voter is the entry of the sender's address in the recorded voters,
 		// however it is looked up (directly, or through an accessor)
 		isVoter := func(v ssa.Value) bool {
-			s := w.CanonI(v)
+			s := strings.TrimSuffix(w.CanonDeep(v), "#0")
 			return strings.HasPrefix(s, "recv.GovProposalHeader.Voters[") && strings.HasSuffix(s, "]") && strings.Contains(s, "p0")
 		}
 		var c, d ssa.CallInstruction
@@ -263,8 +265,23 @@ func gv4(w *World, r *Report) {
 	}
 	eb := needFn(r, "Gv-4", w, fref{pkgGov, "GovCtrler", "EndBlock"})
 	if eb != nil {
-		f := w.findCall(eb, "recv.freezeProposals(p0.Height())")
-		a := w.findCall(eb, "recv.applyProposals(p0.Height())")
+		// the helpers may take further (non-height) arguments, e.g. a collector for the events
+		withHeight := func(name string) ssa.Instruction {
+			for _, c := range w.callsTo(eb, fref{pkgGov, "GovCtrler", name}) {
+				n, ok := 0, true
+				for _, a := range c.Common().Args[1:] {
+					if b, isB := a.Type().Underlying().(*types.Basic); isB && b.Info()&types.IsInteger != 0 {
+						n++
+						ok = ok && w.Canon(a) == "p0.Height()"
+					}
+				}
+				if ok && n > 0 {
+					return c.(ssa.Instruction)
+				}
+			}
+			return nil
+		}
+		f, a := withHeight("freezeProposals"), withHeight("applyProposals")
 		r.Check(f != nil && a != nil && instrDominates(f, a), "Gv-4", "EndBlock:freeze-then-apply", "freezing and applying run once per block with the block's height", "EndBlock does not freeze and then apply with the block's height", fnSite(w, eb))
 	}
 	fp := needFn(r, "Gv-4", w, fref{pkgGov, "GovCtrler", "freezeProposals"})
